@@ -25,7 +25,7 @@ from .layout import Case
 MODEL_FILES = ["MypyVerif/Model/Layout.lean", "MypyVerif/Proofs/LayoutNames.lean", "MypyVerif/Proofs/LayoutCrawl.lean",
                "MypyVerif/Proofs/LayoutFind.lean", "MypyVerif/Proofs/LayoutRound.lean", "MypyVerif/Proofs/LayoutList.lean",
                "MypyVerif/Proofs/LayoutFS.lean", "MypyVerif/Proofs/LayoutDir.lean", "MypyVerif/Proofs/LayoutSide.lean",
-               "MypyVerif/Proofs/LayoutPkg.lean"]
+               "MypyVerif/Proofs/LayoutPkg.lean", "MypyVerif/Proofs/LayoutSort.lean"]
 MODEL_FILES = [f for f in MODEL_FILES if os.path.exists(os.path.join(os.path.dirname(__file__), "..", "..", "lean", f))]
 
 # the witnesses of the `not_…` theorems (same trees as in Props/C18.lean), replayed on the real code every run
